@@ -21,6 +21,12 @@ let op_of c =
   | ":lower" -> OLower (b c)
   | ":replc" -> let x = b c in let c1 = n_tok (next c) in OReplaceChar (x, c1, n_tok (next c))
   | ":ordinal" -> OOrdinal (n_tok (next c))
+  | ":repls" -> let x = b c in let t = b c in OReplaceStr (x, t, b c)
+  | ":printable" -> OPrintable (b c)
+  | ":append" -> let x = b c in OAppend (x, b c)
+  | ":plus" -> let x = b c in OPlus (x, b c)
+  | ":copybuf" -> let x = b c in OCopyBuf (x, nat_tok (next c))
+  | ":fmt" -> let x = b c in OFormat (x, b c)
   | t -> raise (Bad ("op " ^ t))
 let pval = function
   | VZ z -> [pz z] | VNone -> ["~"] | VB l -> [pbytes l]
